@@ -765,6 +765,22 @@ def main():
         if write_if_changed(os.path.join(OUT, "Oracle.lean"), "\n".join(L)):
             changed.append("Oracle.lean")
 
+    cpath = os.path.join(ORACLE, "casefold17.json")
+    if os.path.exists(cpath):
+        cf = json.load(open(cpath))
+        L = [HEADER % "oracle/casefold17.json (ICU %s / Unicode %s via V8)" % (cf.get("icu"), cf.get("unicode")),
+             "namespace Regress.Oracle", "",
+             "-- pairs packed like intervals (c in the low 21 bits, image in the next 21), sorted by c",
+             "-- scf: c ↦ smallest member of c's simple-case-folding class (classes observed through /iu)",
+             "def SCF : Nat := %s" % hexnat(pack_intervals([tuple(x) for x in cf["scf"]])),
+             "def SCF_len : Nat := %d" % len(cf["scf"]),
+             "-- legacy: c ↦ ES legacy Canonicalize(c) (toUpperCase unless multi-character or non-ASCII→ASCII)",
+             "def LEGACY : Nat := %s" % hexnat(pack_intervals([tuple(x) for x in cf["legacy"]])),
+             "def LEGACY_len : Nat := %d" % len(cf["legacy"]),
+             "\nend Regress.Oracle\n"]
+        if write_if_changed(os.path.join(OUT, "OracleFold.lean"), "\n".join(L)):
+            changed.append("OracleFold.lean")
+
     summary = {
         "interval_tables": len(tables), "intervals": total_iv, "folds": len(folds), "to_uppercase": len(upper),
         "binary_names": len(bin_res), "gc_names": len(gc_res), "script_names": len(sc_res),
